@@ -1,2 +1,16 @@
 import DaliVerif.Drivers.WatchDrv
-def main : IO Unit := DaliVerif.Proto.loop DaliVerif.WatchDrv.handle
+/-- same loop as `Proto.loop`, but the answer is flushed after every line so
+that the harness can talk to the driver in lock step (trace mode) -/
+partial def loopFlush (handle : List String → String) : IO Unit := do
+  let stdin ← IO.getStdin
+  let stdout ← IO.getStdout
+  let rec go : IO Unit := do
+    let line ← stdin.getLine
+    if line.isEmpty then return ()
+    let toks := (line.trimAsciiEnd.copy.splitOn " ").filter (· ≠ "")
+    stdout.putStrLn (handle toks)
+    stdout.flush
+    go
+  go
+
+def main : IO Unit := loopFlush DaliVerif.WatchDrv.handle
